@@ -173,3 +173,31 @@ CONTRACTS.update({
         mustfail="all((n in result) == (not gated_name(graph, n)) for n in graph._nodes)",
     ),
 })
+
+CONTRACTS.update({
+    F + "wrap_outputs": dict(
+        props=["C01", "C17"],
+        params={"node": NODE, "result": ANY},
+        returns=DICT(STR, ANY),
+        # object-model fact: data outputs are the leading outputs (FunctionNode.data_outputs = outputs[:len-len(emit)])
+        requires=["len(node.data_outputs) <= len(node.outputs)", "all(node.outputs[i] == node.data_outputs[i] for i in range(len(node.data_outputs)))",
+                  "distinct_names(node.outputs)"],
+        ensures=[
+            "all(k in node.outputs for k in result)",
+            "all(o in result for o in node.data_outputs)",
+            "all(o in result and result[o] is _EMIT_SENTINEL for o in node.outputs[len(node.data_outputs):])",
+            "len(node.data_outputs) != 1 or result[node.data_outputs[0]] is old(result)",
+            "len(node.data_outputs) < 2 or all(result[node.data_outputs[i]] is old(result)[i] for i in range(len(node.data_outputs)))",
+        ],
+        raises={"ValueError": "len(node.data_outputs) >= 2 and len(node.data_outputs) != len(result)"},
+        imports={"_EMIT_SENTINEL": "hypergraph.nodes.base"},
+        loops=[{"invariant": [
+            "all(k in node.outputs for k in wrapped)",
+            "all(o in wrapped for o in node.data_outputs)",
+            "all(o in wrapped and wrapped[o] is _EMIT_SENTINEL for o in _seq[:_i])",
+            "len(node.data_outputs) != 1 or wrapped[node.data_outputs[0]] is result",
+            "len(node.data_outputs) < 2 or all(wrapped[node.data_outputs[i]] is result[i] for i in range(len(node.data_outputs)))",
+        ]}],
+        mustfail="len(node.data_outputs) < 2 or all(result[node.data_outputs[i]] is old(result)[len(node.data_outputs) - 1 - i] for i in range(len(node.data_outputs)))",
+    ),
+})
